@@ -165,8 +165,20 @@ def model_states(evs, tm):
         pn[pid] = nm.decode()
     snaps = [(dict(tp), dict(pn))]
     pending_new, pending_exec = {}, {}
+    # K2 (known finding): the tool applies the thread-info record of a sampler window a second time when the window ENDs.
+    # alt_tp is the thread table WITH that second application; it is used only to recognise the finding, never to accept a line
+    alt_tp, open_sample = dict(tp), {}
+    ALT[:] = [dict(alt_tp)]
     for tid, code, q, data in evs:
         single = q in (0, 3)
+        if code == 'PERF_Event' and q == 1:
+            open_sample[tid] = [bool(arg((tid, code, q, data), 0) & 1), None]
+        elif code == 'PERF_Event' and q == 2 and tid in open_sample:
+            wants, first = open_sample.pop(tid)
+            if wants and first is not None:
+                alt_tp[first[0]] = first[1]
+        elif code == 'PERF_THD_Data' and tid in open_sample and open_sample[tid][1] is None:
+            open_sample[tid][1] = (arg((tid, code, q, data), 1), arg((tid, code, q, data), 0))
         if single and code == 'TRACE_DATA_NEWTHREAD':
             tp[arg((tid, code, q, data), 0)] = arg((tid, code, q, data), 1)
             pending_new[tid] = arg((tid, code, q, data), 1)
@@ -182,8 +194,16 @@ def model_states(evs, tm):
             tp[tid] = arg((tid, code, q, data), 0)
         elif single and code == 'PERF_THD_Data':
             tp[arg((tid, code, q, data), 1)] = arg((tid, code, q, data), 0)
+        if single and code in ('TRACE_DATA_NEWTHREAD', 'PERF_THD_Data'):
+            alt_tp[arg((tid, code, q, data), 0 if code == 'TRACE_DATA_NEWTHREAD' else 1)] = arg((tid, code, q, data), 1 if code == 'TRACE_DATA_NEWTHREAD' else 0)
+        elif single and code == 'TRACE_DATA_THREAD_TERMINATE_PID':
+            alt_tp[tid] = arg((tid, code, q, data), 0)
         snaps.append((dict(tp), dict(pn)))
+        ALT.append(dict(alt_tp))
     return snaps
+
+
+ALT = []      # per event index: thread table with K2's second application (filled by model_states)
 
 
 def proc_text(state, tid):
@@ -349,6 +369,10 @@ def check_process(col, tid, states, names, pids, kind):
         if m and (int(m.group(2)) in pids or m.group(1) == '' or m.group(1) in names):
             raise Violation(f'undeclared-thread-attributed:{kind}', f'thread {tid:#x} was never declared but its line says {col!r}')
         return
+    names_now = states[-1][1]
+    if any(tid in a and col == f'{names_now.get(a[tid], "")}({a[tid]})' for a in ALT):
+        raise Violation('sampler-info-reapplied-at-window-end', f'{kind}: thread {tid:#x} is shown as {col!r}: a sampler thread-info record naming it was applied again at the END of '
+                                                                f'its sampler window, after a later record had re-declared the thread ({sorted(a for a in accepted if a)})')
     raise Violation(f'process-column:{kind}', f'thread {tid:#x}: process column {col!r}, the dump declares {sorted(a for a in accepted if a)}')
 
 
